@@ -3,6 +3,8 @@
    Mirrors the Python code function by function:
      Randomizer._skip_value, <X>Randomizer.generate      -> skip_value, gen
      _resolve_random, _resolve_random_dict               -> resolve_count, resolve_dict
+     :callback / :factory                                -> cb_of, apply_cb, fac_of
+     the asserts of the Randomizer constructors          -> ctor_ok
      _merge_specs                                        -> merge_specs
      _make_tree                                          -> make_tree (explicit fuel)
      build_random_tree                                   -> build_random_tree
@@ -37,7 +39,10 @@ Inductive value :=
 | VInt (z : Z)
 | VFlt (q : Q)          (* float, exact rational *)
 | VStr (t : tmpl)       (* str; a resolved string is [VStr [Lit s]] *)
-| VDate (ord : Z).      (* datetime.date, proleptic ordinal *)
+| VDate (ord : Z)       (* datetime.date, proleptic ordinal *)
+| VFac (n : Z)          (* a node-data class: 0 = DictWrapper, n > 0 = classes of the harness *)
+| VCbSet (k : text) (z : Z)   (* a callback: lambda data: data.__setitem__(k, z) *)
+| VCbDel (k : text).          (* a callback: lambda data: data.pop(k, None) *)
 
 Definition mkQ (n d : Z) : Q := Qmake n (Z.to_pos d).
 
@@ -185,6 +190,24 @@ Definition strip (m : spec) : spec :=
 Definition count_of (v : value) : nat :=
   match v with VInt z => Z.to_nat z | VBool true => 1%nat | _ => 0%nat end.
 
+(* callback = spec.pop(":callback", None) ... if callback: callback(data) *)
+Inductive callback := CbNone | CbSet (k : text) (z : Z) | CbDel (k : text).
+Definition cb_of (c : option sval) : callback :=
+  match c with
+  | Some (SV (VCbSet k z)) => CbSet k z
+  | Some (SV (VCbDel k)) => CbDel k
+  | _ => CbNone                       (* absent / None; other values are outside the domain *)
+  end.
+Definition apply_cb (cb : callback) (data : list (text * value)) : list (text * value) :=
+  match cb with
+  | CbNone => data
+  | CbSet k z => upd data k (VInt z)
+  | CbDel k => remove_key k data
+  end.
+(* factory = spec.pop(":factory", DictWrapper) *)
+Definition fac_of (c : option sval) : Z :=
+  match c with Some (SV (VFac n)) => n | _ => 0 end.
+
 (* count = spec.pop(":count", 1); count = _resolve_random(count) or 0 *)
 Definition resolve_count (c : option sval) (s : stream) : nat * stream :=
   match c with
@@ -212,10 +235,11 @@ Fixpoint resolve_dict (d : spec) (i : nat) (p : text) (s : stream)
 (* ------------------------------------------------------------- the builder *)
 (* a generated node: its type (the relation key = kind in a TypedTree), the
    content of its DictWrapper, its children *)
-Inductive gt := G (ty : text) (attrs : list (text * value)) (ch : list gt).
-Definition g_type (t : gt) := match t with G ty _ _ => ty end.
-Definition g_attrs (t : gt) := match t with G _ a _ => a end.
-Definition g_ch (t : gt) := match t with G _ _ ch => ch end.
+Inductive gt := G (ty : text) (fac : Z) (attrs : list (text * value)) (ch : list gt).
+Definition g_type (t : gt) := match t with G ty _ _ _ => ty end.
+Definition g_fac (t : gt) := match t with G _ f _ _ => f end.
+Definition g_attrs (t : gt) := match t with G _ _ a _ => a end.
+Definition g_ch (t : gt) := match t with G _ _ _ ch => ch end.
 
 (* a [for] loop threading the stream *)
 Fixpoint smap {X Y} (f : X -> stream -> Y * stream) (l : list X) (s : stream)
@@ -232,18 +256,21 @@ Section Build.
 
   (* one child of relation [nt] (merged, stripped spec [attrs]) with 1-based index i *)
   Definition make_node (rec : text -> text -> stream -> list gt * stream)
-             (nt : text) (attrs : spec) (prefix : text) (i : nat) (s : stream) : gt * stream :=
+             (nt : text) (cb : callback) (fac : Z) (attrs : spec) (prefix : text) (i : nat) (s : stream)
+    : gt * stream :=
     let p := hier prefix i in
     let (data, s2) := resolve_dict attrs i p s in
+    let data := apply_cb cb data in                      (* if callback: callback(data) *)
     let (ch, s3) := if mem nt rels then rec nt p s2 else ([], s2) in
-    (G nt data ch, s3).
+    (G nt fac data ch, s3).                              (* node_data = factory(data as keywords) *)
 
   (* one relation: for node_type, spec in child_specs.items() *)
   Definition make_group (rec : text -> text -> stream -> list gt * stream)
              (prefix : text) (e : text * spec) (s : stream) : list gt * stream :=
     let m := merge_specs (fst e) (snd e) types in
     let (cnt, s1) := resolve_count (lookup K_count m) s in
-    smap (make_node rec (fst e) (strip m) prefix) (seq 1%nat cnt) s1.
+    smap (make_node rec (fst e) (cb_of (lookup K_callback m)) (fac_of (lookup K_factory m)) (strip m) prefix)
+         (seq 1%nat cnt) s1.
 
   Fixpoint make_tree (fuel : nat) (ptype : text) (prefix : text) (s : stream)
     : list gt * stream :=
@@ -262,12 +289,26 @@ Section Build.
   Definition build_random_tree (typed : bool) (fuel : nat) (s : stream)
     : bool * option text * list gt :=
     (typed, d_name Df, fst (make_tree fuel K_root [] s)).
+
+  (* assert "__root__" in relations *)
+  Definition def_accepted : bool := mem K_root rels.
 End Build.
 
 (* node.kind of the generated nodes: the type name in a TypedTree, none in a Tree *)
 Definition kind_of (typed : bool) (t : gt) : option text :=
   if typed then Some (g_type t) else None.
 
-Fixpoint g_size (t : gt) : nat := match t with G _ _ ch => S (list_sum (map g_size ch)) end.
+Fixpoint g_size (t : gt) : nat := match t with G _ _ _ ch => S (list_sum (map g_size ch)) end.
 Fixpoint g_height (t : gt) : nat :=
-  match t with G _ _ ch => S (list_max (map g_height ch)) end.
+  match t with G _ _ _ ch => S (list_max (map g_height ch)) end.
+
+(* what the Randomizer constructors accept (their asserts):
+     0.0 <= probability <= 1.0; RangeRandomizer: max > min; DateRangeRandomizer: max_dt > min_dt *)
+Definition ctor_ok (r : rnd) : bool :=
+  let pok p := Qle_bool 0%Q p && Qle_bool p 1%Q in
+  match r with
+  | RRangeI lo hi p _ => pok p && (lo <? hi)
+  | RRangeF lo hi p _ => pok p && negb (Qle_bool hi lo)
+  | RDate _ days _ p => pok p && (0 <? days)
+  | RValue _ p | RSample _ _ p | RText p => pok p
+  end.
